@@ -233,9 +233,20 @@ type Exec struct {
 	clockHash      uint64
 	rendezvousOnly bool
 	atomics        map[unsafe.Pointer]*Obj
+	serial         uint64 // unique per execution (pointer identity is not: a later Exec may reuse the address)
 }
 
 var cur *Exec
+
+var execSerial uint64
+
+// Serial returns the execution's unique number (0 outside an execution).
+func Serial() uint64 {
+	if cur == nil {
+		return 0
+	}
+	return cur.serial
+}
 
 // AsymmetricRendezvous switches the symmetric treatment of unbuffered hand-overs off
 // (VERIF_ASYMMETRIC=1; only for measuring its cost).
@@ -319,7 +330,9 @@ func Run(cfg Config, main func()) *Exec {
 		// schedule exploration: explore both orders of the code after a hand-over
 		cfg.SymmetricRendezvous = true
 	}
+	execSerial++
 	e := &Exec{
+		serial:  execSerial,
 		cfg:     cfg,
 		chans:   map[unsafe.Pointer]*vchan{},
 		endCh:   make(chan struct{}, 1),
